@@ -19,7 +19,7 @@ PaletteValues ==
 
 SmallValues == { <<97>>, <<34, 44>> }
 
-Alphabet == {97, 44, 34, 39, 13, 10, 32, 233}
+Alphabet == {97, 44, 34, 39, 13, 10, 32}
 DeepValues ==
   {<<x>> : x \in Alphabet} \cup {<<x, y>> : x, y \in Alphabet} \cup {<<x, y, z>> : x, y, z \in Alphabet}
 
